@@ -473,6 +473,11 @@ fn cb_programs(rec: &Rec) -> Vec<Vec<CbOp>> {
     if rec.rtype == T_AAAA {
         v.push(vec![CbOp::RrIp(16)]);
         v.push(vec![CbOp::SetRrIp((1..=16).collect()), CbOp::RrIp(200)]);
+        // ::, ::1, an IPv4-mapped and an IPv4-compatible address
+        v.push(vec![CbOp::SetRrIp(vec![0; 16]), CbOp::RrIp(16)]);
+        v.push(vec![CbOp::SetRrIp({ let mut a = vec![0u8; 16]; a[15] = 1; a }), CbOp::RrIp(16)]);
+        v.push(vec![CbOp::SetRrIp(vec![0, 0, 0, 0, 0, 0, 0, 0, 0, 0, 0xff, 0xff, 192, 0, 2, 1]), CbOp::RrIp(16)]);
+        v.push(vec![CbOp::SetRrIp(vec![0, 0, 0, 0, 0, 0, 0, 0, 0, 0, 0, 0, 192, 0, 2, 1]), CbOp::RrIp(16)]);
     }
     v
 }
